@@ -23,19 +23,6 @@ CONSTANTS
   RenameAliases <- MC_RenameAliases
   Ops <- MC_Ops
   Deviations <- MC_Deviations
-INIT Init
-NEXT Next
-VIEW View
-INVARIANT TypeOK
-INVARIANT ListDictAgree
-INVARIANT KeysDisjoint
-INVARIANT NoDuplicates
-INVARIANT Owned
-INVARIANT MembersOwned
-INVARIANT NameClashFree
-PROPERTY ForeignIndexRefused
-PROPERTY RejectedIsNoop
-PROPERTY OrderKept
-PROPERTY ProjectReplaced
-INVARIANT EmitPath
+INIT TInit
+NEXT TNext
 CHECK_DEADLOCK FALSE
